@@ -2,8 +2,11 @@
 
 package tlcp
 
+//verif:twin dtlcp
+
 import (
 	"bytes"
+	"context"
 	"crypto"
 	"crypto/ecdsa"
 	"errors"
@@ -82,7 +85,7 @@ func (k verifServerKey) Decrypt(r io.Reader, msg []byte, opts crypto.DecrypterOp
 
 // C07 / C08 / C10 / C03 — the real server handshake against a symbolic client.
 //
-//verif:harness props=C07,C08,C10,C03,C12,C09 paths=600000 tpaths=6000000 depth=300 reach=completedFull,completedResumed,failed
+//verif:harness props=C07,C08,C10,C03,C12,C09 twinprops=C07,C08,C10 paths=1200000 tpaths=6000000 depth=300 reach=completedFull,completedResumed,failed
 func VerifHarness_server_handshake() {
 	stubSuites()
 	cache := &verifCache{}
@@ -110,8 +113,8 @@ func VerifHarness_server_handshake() {
 		}
 		return cs
 	}
-	c := &Conn{conn: &verifNullConn{}, config: cfg}
-	err := c.serverHandshake(nil)
+	c := verifDriverConn(cfg, false)
+	err := c.serverHandshake(context.Background())
 	cached := cache.sess
 	if err != nil {
 		verifReach("failed")
